@@ -111,12 +111,13 @@ fn call_any(slot: &mut Option<Unimock>, m: u32, a: u8) -> String {
                 show_val,
             )
         }
-        17 | 23 | 24 => {
+        17 | 23 | 24 | 35 => {
             let rc = Rc::new(slot.take().unwrap());
             obs(
                 catch_unwind(AssertUnwindSafe(move || match m {
                     17 => rc.p_rc(a).take(),
                     23 => rc.r_rc(a).take(),
+                    35 => rc.p_rc3(a).take(),
                     _ => rc.p_rc2(a).take(),
                 })),
                 show_val,
